@@ -9,14 +9,14 @@ import ast
 from ..facts import Ctx, norm_cmp, exc_name, ctor_fields, self_field_exprs
 from ..symex import show, walk, term_name
 from .. import pat as P
-from ..semantic import deep_leaves, evaluator, holds, value, Undecided
+from ..semantic import deep_leaves, evaluator, holds, value, Undecided, DecidedRaise
 from .c05 import check_roles
 
 LEVEL = 'other'
 SELF = P.Pat(lambda t: t == ('self',), 'self')
 
-INTS = (None, -7, -5, -4, -1, 0, 1, 2, 4, 5, 7)
-SECS = (None, 0, 0.25, 0.5, 1, 1.26, 1.999, 2.5, -0.5, -1.3, 3)
+INTS0 = INTS = (None, -7, -5, -4, -1, 0, 1, 2, 4, 5, 7)
+SECS0 = SECS = (None, 0, 0.25, 0.5, 1, 1.26, 1.999, 2.5, -0.5, -1.3, 3)
 
 
 def eff(lo, hi, n):
@@ -40,7 +40,15 @@ def region_field(cx, clsname):
 
 
 def check(repo, rep):
+    global INTS, SECS
     cx = Ctx(repo)
+    rep.cx = cx
+    big = rep.tier == 'thorough'        # the thorough tier evaluates the same obligations on a much larger grid
+    INTS = ((None,) + tuple(range(-14, 15))) if big else INTS0
+    SECS = ((None,) + tuple(x / 8 for x in range(-24, 33)) + (1.26, 1.999, -1.3, 0.333, 2.0005)) if big else SECS0
+    NS = (0, 1, 2, 3, 5, 6, 9, 12) if big else (0, 1, 3, 6)
+    WIDTHS = (1, 2, 4) if big else (1, 2)
+    CHANS = (1, 2, 3) if big else (1, 2)
     W = lambda n: cx.where('core', n)
     rc = cx.cls('core', 'AudioRegion')
     gi = cx.fn('core', 'AudioRegion.__getitem__')
@@ -75,10 +83,10 @@ def check(repo, rep):
     npoints = 0
     bad = None
     undecided = None
-    for sw_ in (1, 2):
-        for ch_ in (1, 2):
+    for sw_ in WIDTHS:
+        for ch_ in CHANS:
             bps_ = sw_ * ch_
-            for n_ in (0, 1, 3, 6):
+            for n_ in NS:
                 for a_ in INTS:
                     for b_ in INTS:
                         assign = {('p', 'index'): slice(a_, b_), LEN: n_ * bps_, LENSELF: n_, ('attr', ('self',), 'sample_width'): sw_, ('attr', ('self',), 'channels'): ch_,
@@ -131,7 +139,8 @@ def check(repo, rep):
                W(bad[0].node) if bad else W(gi), 'AudioRegion.__getitem__:byte-range', msg, sample=dict(rule='byte range', grid_points=npoints))
         rep.floor('grid points of the sample-slicing rule', npoints, 1000)
     # ---- invalid indices raise TypeError
-    for label, idx in (('a non-slice index', 3), ('a slice with a step', slice(0, 2, 1)), ('a float start bound', slice(0.5, 2)), ('a float stop bound', slice(0, 2.5)), ('a string bound', slice('a', None))):
+    for label, idx in (('a non-slice index', 3), ('a slice with a step', slice(0, 2, 1)), ('a float start bound', slice(0.5, 2)), ('a float stop bound', slice(0, 2.5)), ('a string bound', slice('a', None)),
+                       ('a float start bound equal to zero', slice(0.0, 2)), ('a float stop bound equal to zero', slice(1, 0.0)), ('an empty-string start bound', slice('', 2)), ('a tuple stop bound', slice(0, ()))):
         assign = {('p', 'index'): idx, LEN: 8, LENSELF: 4, ('attr', ('self',), 'sample_width'): 2, ('attr', ('self',), 'channels'): 1}
         try:
             hit = [l for l in lv if holds(l, evaluator(assign))]
@@ -156,8 +165,11 @@ def check(repo, rep):
                     for sw_ in (1, 2, 4):
                         for ch_ in (1, 2, 3):
                             for n_ in list(range(0, 40)) + [999, 1000, 1001, 1002, 4409, 4411]:
-                                got = value(l.value, evaluator({LEN: n_ * sw_ * ch_, ('attr', ('self',), 'sample_width'): sw_, ('attr', ('self',), 'channels'): ch_, ('attr', ('self',), '_sample_size_all_channels'): sw_ * ch_,
-                                                                ('attr', ('self',), 'sampling_rate'): rate_}), fields)
+                                try:
+                                    got = value(l.value, evaluator({LEN: n_ * sw_ * ch_, ('attr', ('self',), 'sample_width'): sw_, ('attr', ('self',), 'channels'): ch_, ('attr', ('self',), '_sample_size_all_channels'): sw_ * ch_,
+                                                                    ('attr', ('self',), 'sampling_rate'): rate_}), fields)
+                                except DecidedRaise as exc:
+                                    got = 'an exception (%s)' % exc
                                 npts += 1
                                 if okl and (got != n_ or isinstance(got, float)):
                                     okl, why = False, 'for %d bytes, width %d, %d channel(s), %d Hz it gives %r, not %d' % (n_ * sw_ * ch_, sw_, ch_, rate_, got, n_)
@@ -227,7 +239,8 @@ def check(repo, rep):
             rep.ob('seconds view: start sample = int(start * rate) (0 when omitted), stop sample = round(stop * rate) (None when omitted)', bad is None, W(bad[0].node) if bad else W(vf[2]),
                    '_SecondsView.__getitem__:bounds', bad[1] if bad else None, sample=dict(view='seconds', grid_points=npoints))
             rep.floor('grid points of the seconds-view rule', npoints, 300)
-        for label2, idx, want_raise in (('a non-slice index', 1.5, True), ('a slice with a step', slice(0, 1, 1), True), ('a string bound', slice('a', None), True), ('int bounds', slice(1, 2), False), ('float bounds', slice(0.5, 1.5), False)):
+        for label2, idx, want_raise in (('a non-slice index', 1.5, True), ('a slice with a step', slice(0, 1, 1), True), ('a string bound', slice('a', None), True), ('an empty-string start bound', slice('', 1), True),
+                                              ('an empty-tuple stop bound', slice(0, ()), True), ('int bounds', slice(1, 2), False), ('float bounds', slice(0.5, 1.5), False), ('a float zero start', slice(0.0, 1.5), False)):
             try:
                 hit = [l for l in sv if holds(l, evaluator({('p', 'index'): idx, ('attr', REG, 'sampling_rate'): 10}, mode='frac'))]
             except Undecided as exc:
@@ -312,7 +325,8 @@ def check(repo, rep):
         rep.ob('milliseconds view: bounds are t / 1000 seconds (None when omitted), then the seconds view', bad is None, W(bad[0].node) if bad else W(mf[2]), '_MillisView.__getitem__:bounds', bad[1] if bad else None,
                sample=dict(view='millis', grid_points=npoints))
         rep.floor('grid points of the milliseconds-view rule', npoints, 100)
-    for label2, idx, want_raise in (('a float bound', slice(0.5, 2), True), ('a non-slice index', 3, True), ('a slice with a step', slice(0, 2, 1), True), ('int bounds', slice(1, 2), False)):
+    for label2, idx, want_raise in (('a float bound', slice(0.5, 2), True), ('a float start bound equal to zero', slice(0.0, 500), True), ('an empty-string start bound', slice('', 500), True), ('a non-slice index', 3, True),
+                                          ('a slice with a step', slice(0, 2, 1), True), ('int bounds', slice(1, 2), False)):
         try:
             hit = [l for l in mv if holds(l, evaluator({('p', 'index'): idx}))]
         except Undecided as exc:
@@ -326,7 +340,7 @@ def check(repo, rep):
             rep.ob('the milliseconds view rejects %s with TypeError' % label2, l.outcome == 'raise' and exc_name(l) == 'TypeError', W(l.node) if l.node is not None else W(mf[2]), '_MillisView.__getitem__:reject[%s]' % label2)
         else:
             rep.ob('the milliseconds view accepts %s' % label2, l.outcome == 'return', W(l.node) if l.node is not None else W(mf[2]), '_MillisView.__getitem__:accept[%s]' % label2, 'outcome %s' % l.outcome)
-    check_roles(cx, rep, lambda p: p['func'] in ('AudioRegion.__getitem__', '_SecondsView.__getitem__', 'AudioRegion.__post_init__'), floor=4)
+    check_roles(cx, rep, lambda p: p['func'] in ('AudioRegion.__getitem__', '_SecondsView.__getitem__', 'AudioRegion.__post_init__'), floor=2)
     rep.explanation = ('Slicing decided path-wise and semantically: AudioRegion.__getitem__, _SecondsView.__getitem__ and _MillisView.__getitem__ are enumerated path by path with every repository helper '
                        'inlined and every conditional expression turned into a branch; on a grid of small inputs (bounds None / negative / zero / positive / beyond the length, 1-2 byte samples, 1-2 channels, '
                        '0-6 samples; seconds bounds with fractions at 8 Hz .. 44.1 kHz) the path whose condition holds is selected and its bound terms are evaluated as formulas (terms extracted from the '
